@@ -113,6 +113,10 @@ def run_case(case):
                         for f in traffic(st[1] % 6, st[2] % 4, step_no):
                             s.send(F.line(f))
                     time.sleep(0.1)
+                elif k == "noise":
+                    if s.srv.conn is not None:
+                        s.send(NOISE[st[1] % len(NOISE)])
+                    time.sleep(0.08)
                 elif k == "crowd":
                     # many aircraft at once (more than any table or map cell holds), all positioned
                     if s.srv.conn is not None:
@@ -187,15 +191,30 @@ def run_case(case):
     return fails
 
 
+# traffic that is not a frame (C16 decides what is processed; here it only has to be survived)
+NOISE = [
+    b"*8D40621D58C382D690C8AC2863A7BEEF;\n",  # framed, 16 bytes
+    b"*8D40621D58C382D690C8AC2863A7BE;\n",  # framed, 15 bytes
+    b"*" + b"ab" * 3000 + b";\n",
+    b"*8D40621D58C382D690C8AC2863A7*8D40621D58C386435CC412692AD6;\n",  # two frames glued together
+    b"*8d4840d6202cc371c32ce05760;\n",
+    b"*8d;\n", b"*;\n", b"\n", b"*zz11zz11zz11zz;\n", b"*\xff\xfe\xfd;\n", "日本\n".encode(),
+    b"@0123456789ab8d4840d6202cc371c32ce0576098;\n", b"*98aabbcc;\n", b"*00000000000000;\n", b"*0000000000000000000000000000;\n",
+    b"*a0001910204d7075d35820c25c;\n", b"*8d4840d6202cc371c32ce0576098",  # (the last one has no end: the next line completes it)
+]
+
 BAD_VALUES = {
-    "--lat": ["abc", "", "12,5", "--", "1e", "north"],
+    "--lat": ["abc", "", "12,5", "--", "1e", "north", "52.\udce9"],
     "--long": ["abc", "", "4.0.0"],
     "--port": ["abc", "-1", "65536", "70000", "", "1.5"],
-    "--host": ["localhost", "256.1.1.1", "1.2.3", "", "::1"],
+    "--host": ["localhost", "256.1.1.1", "1.2.3", "", "::1", "127.0.0.\udcb1"],
     "--scale": ["abc", "", "1,2"],
     "--filter-time": ["abc", "-1", "1.5", "", "99999999999999999999999"],
     "--max-range": ["abc", "", "km"],
-    "--locations": ["abc", "(a,1.0)", "(a)", "()", "", "(a,b,c)", "(a,1.0,x)", "a,1.0", ",", "((", "(a,,)", "(", ")", "(home,52.1,4.3°", "°", "(é", "(a,1.0,2.0,3.0)", "(,,", "(a,1e999x,2)", "(a, ,)"],
+    # a lone surrogate stands for one raw byte of argv (os.fsencode): values that are not UTF-8
+    "--log-folder": ["logs_\udce9", "\udcff"],
+    "--gpsd-ip": ["gps\udc80host"],
+    "--locations": ["abc", "(a,1.0)", "(a)", "()", "", "(a,b,c)", "(a,1.0,x)", "a,1.0", ",", "((", "(a,,)", "(", ")", "(home,52.1,4.3°", "°", "(é", "(a,1.0,2.0,3.0)", "(,,", "(a,1e999x,2)", "(a, ,)", "(Z\udcfcrich,47.4,8.5)", "(a,1.0,2.\udc80)"],
 }
 
 
@@ -206,6 +225,8 @@ def run_cli_case(case):
     val = BAD_VALUES[opt][case["val"] % len(BAD_VALUES[opt])]
     argv = [RADAR, "--lat=52.0", "--long=4.0", "--log-folder", os.path.join(pbt.VERIF, "work", "logs", "cli")]
     argv = [a for a in argv if not a.startswith(opt + "=")]
+    if opt == "--log-folder":
+        argv = argv[:3]
     extra = [opt, val] if opt == "--locations" else [f"{opt}={val}"]
     if case.get("extra_location") and opt == "--locations":
         extra = [opt, "(ok,1.0,2.0)", val]
@@ -250,6 +271,8 @@ def classify(case):
         cls.append("burst of keys")
     if "mouse" in kinds or "click_tab" in kinds:
         cls.append("mouse")
+    if "noise" in kinds:
+        cls.append("traffic that is not a frame")
     if case.get("no_server"):
         cls.append("quit while waiting for connection")
     if "server_drop" in kinds and "--retry-tcp" in [FLAGS[i % len(FLAGS)] for i in case["flags"]]:
@@ -269,6 +292,9 @@ def burst_cases():
     for tab in range(5):
         out.append(dict(base, steps=[["key", tab]] + pairs + [["paste", [tab, k]] for k in NAV]))
     out.append(dict(base, steps=[["feed", 3, 1], ["key", 2]] + pairs))
+    # every listed kind of line that is not a frame, on every tab, between frames
+    for tab in range(5):
+        out.append(dict(base, steps=[["feed", 2, 1], ["key", tab]] + [st for k in range(len(NOISE)) for st in (["noise", k], ["feed", 2, 1])] + [["key", 2]]))
     steps = []
     for k in NAV:
         steps += [["feed", 2, 1], ["key", 2], ["key", 7], ["key", 0], ["wait_expiry"], ["paste", [2, k]]]
@@ -321,6 +347,7 @@ def worker(args):
         st.tuples(st.just("feed_tab"), st.integers(2, 5), st.integers(0, 3), st.integers(0, 4)),
         st.tuples(st.just("server_drop"), st.integers(0, 1)),
         st.tuples(st.just("crowd"), st.integers(0, 2)),
+        st.tuples(st.just("noise"), st.integers(0, len(NOISE) - 1)),
         # several aircraft in one coverage cell, then each tab in turn
         st.sampled_from([("feed_tab", 3, 2, 1), ("feed_tab", 2, 2, 0), ("feed_tab", 4, 2, 2), ("feed_tab", 2, 1, 1), ("feed_tab", 5, 2, 3), ("feed_tab", 3, 3, 3), ("feed_tab", 2, 3, 3), ("feed_tab", 4, 3, 0)]),
     )
@@ -338,7 +365,7 @@ def worker(args):
         "wait_keys": st.lists(st.one_of(st.lists(st.integers(5, len(KEYSET) - 1), min_size=1, max_size=4), st.integers(5, 30).map(lambda k: [k] * 150)), max_size=3),
         "gpsd_server": st.sampled_from([None, None, None, None, None, "silent", "talking", "badproto"]),
     })
-    cli = st.fixed_dictionaries({"cli": st.just(True), "opt": st.sampled_from(sorted(BAD_VALUES) + ["--locations", "--locations"]), "val": st.integers(0, 19), "extra_location": st.booleans()})
+    cli = st.fixed_dictionaries({"cli": st.just(True), "opt": st.sampled_from(sorted(BAD_VALUES) + ["--locations", "--locations"]), "val": st.integers(0, 23), "extra_location": st.booleans()})
     # (one_of over strategies of very different size favours the small one: pick the kind explicitly;
     # the CLI grammar is also swept completely on every run)
     case_s = st.sampled_from(list(range(10))).flatmap(lambda k: cli if k == 0 else session)
